@@ -196,6 +196,59 @@ func rangeLoopsOver(fn *ssa.Function, suffix string) [][2]*ssa.BasicBlock {
 	return out
 }
 
+// loopsPerElementOf: the range loops of fn that run once per element of the slice whose provenance ends
+// with suffix — the range loops over that slice itself, and those over a local slice that holds one slot
+// per element of it: made with the slice's length, never appended to or handed on, slot i written in
+// iteration i of a range loop over the slice that has no early exit and has finished before the loop in
+// question starts (`ids := make([]T, len(xs)); for i := range xs { ids[i] = … }; for _, id := range ids`).
+func (w *World) loopsPerElementOf(fn *ssa.Function, suffix string) [][2]*ssa.BasicBlock {
+	direct := rangeLoopsOver(fn, suffix)
+	out := append([][2]*ssa.BasicBlock{}, direct...)
+	for _, b := range fn.Blocks {
+		ifi := blockIf(b)
+		if ifi == nil {
+			continue
+		}
+		bo, ok := ifi.Cond.(*ssa.BinOp)
+		if !ok || bo.Op != token.LSS || !isRangeIndexOf(bo.X) {
+			continue
+		}
+		lenCall, ok := bo.Y.(*ssa.Call)
+		if !ok || calleeName(lenCall) != "builtin.len" {
+			continue
+		}
+		mk, ok := lenCall.Call.Args[0].(*ssa.MakeSlice)
+		if !ok {
+			continue
+		}
+		stores, local := localSliceStores(mk)
+		if !local {
+			continue
+		}
+		filled := false
+		for _, st := range stores {
+			ia := st.Addr.(*ssa.IndexAddr)
+			for _, l := range direct {
+				fillHdr, fillBody := l[0], l[1]
+				fif := blockIf(fillHdr)
+				if fif == nil || fif.Cond.(*ssa.BinOp).X != ia.Index || !w.rangeIndexIntoMake(ia.Index, mk) {
+					continue
+				}
+				if !everyIteration(fn, fillBody, fillHdr, func(i ssa.Instruction) bool { return i == ssa.Instruction(st) }) || len(loopEarlyExits(fn, fillHdr)) != 0 {
+					continue
+				}
+				if fillHdr.Dominates(b) && !reachesBlock(b, fillHdr) {
+					filled = true
+				}
+			}
+		}
+		if filled {
+			out = append(out, [2]*ssa.BasicBlock{b, b.Succs[0]})
+		}
+	}
+	return out
+}
+
 // loopEarlyExits lists the blocks inside the natural loop of hdr (blocks dominated by hdr
 // that can reach it) that leave the loop by an edge other than the header's own exit.
 func loopEarlyExits(fn *ssa.Function, hdr *ssa.BasicBlock) []*ssa.BasicBlock {
